@@ -20,4 +20,14 @@ if [ "$ID" = "replay" ]; then
   exec ./bin/pcheck replay "$2"
 fi
 export VERIF_TIER=$TIER
-exec ./bin/pcheck "$ID" "$TIER"
+./bin/pcheck "$ID" "$TIER" 2> $GEN/run_$ID.err
+rc=$?
+cat $GEN/run_$ID.err >&2
+if [ $rc -ne 0 ] && [ $rc -ne 1 ] && grep -q "fatal error: concurrent map\|DATA RACE" $GEN/run_$ID.err; then
+  # the tree under test keeps package-level mutable state that the parallel in-process explorers tripped over:
+  # repeat with a single worker so that a verdict (not a crash) is produced
+  echo "re-running $ID with a single worker (package-level mutable state detected in the tree under test)" >&2
+  VERIF_WORKERS=1 ./bin/pcheck "$ID" "$TIER"
+  rc=$?
+fi
+exit $rc
